@@ -536,29 +536,33 @@ Section Unwrap.
 End Unwrap.
 
 (** ** comparison with the implementation: lookups by hash over envelopes *)
-Record lookup := mk_lk {
-  lk_env : list nat;                      (* members of the envelope: positions in the pool *)
-  lk_forge_hash : list (nat * string);    (* (position in the envelope, text put into Hash before encoding) *)
-  lk_forge_from : list (nat * string);    (* (position in the envelope, text put into From before encoding) *)
-  lk_req : bytes;                         (* the requested hash *)
-  lk_found : option nat;                  (* position of the message UnwrapEthereumMsg returned; None = error *)
-  lk_after : list (string * string) }.    (* (Hash, From) of every member after the call *)
+Record request := mk_rq {
+  rq_hash : bytes;                        (* the requested hash *)
+  rq_found : option nat;                  (* position of the message UnwrapEthereumMsg returned; None = error *)
+  rq_after : list string }.               (* Hash of every member after the call *)
+
+Record cosmos_env := mk_ev {
+  ev_members : list nat;                  (* members of the envelope: positions in the pool *)
+  ev_forge_hash : list (nat * string);    (* (position in the envelope, text put into Hash before encoding) *)
+  ev_forge_from : list (nat * string);    (* (position in the envelope, text put into From before encoding) *)
+  ev_from_after : list string;            (* From of every member after every call *)
+  ev_requests : list request }.           (* each on a freshly decoded copy of the envelope *)
 
 Record unwrap_case := mk_uc {
   uc_pool : list eth_tx;                  (* the signed transactions that are members of some envelope *)
   uc_hashes : list bytes;                 (* tx.Hash() of each, as go-ethereum computed it *)
-  uc_lookups : list lookup }.
+  uc_envs : list cosmos_env }.
+
+(** the hash function given by a finite graph; a preimage the implementation did
+    not hash gets the empty hash (and the comparison fails) *)
+Definition table_hash (tbl : list (bytes * bytes)) (pre : bytes) : bytes :=
+  match find (fun e => eqb bytes_eq_dec (fst e) pre) tbl with Some e => snd e | None => [] end.
 
 (** Keccak restricted to the pool: the graph pairing the hash preimage of every
     pool transaction (that these are the bytes go-ethereum hashes is what the
     [cases] list checks, byte for byte, for every transaction) with the hash
     go-ethereum computed *)
 Definition uc_table (c : unwrap_case) : list (bytes * bytes) := combine (map hash_preimage (uc_pool c)) (uc_hashes c).
-
-(** the hash function given by a finite graph; a preimage the implementation did
-    not hash gets the empty hash (and the comparison fails) *)
-Definition table_hash (tbl : list (bytes * bytes)) (pre : bytes) : bytes :=
-  match find (fun e => eqb bytes_eq_dec (fst e) pre) tbl with Some e => snd e | None => [] end.
 
 Fixpoint update_nth {A} (f : A -> A) (n : nat) (l : list A) : list A :=
   match l, n with
@@ -581,23 +585,26 @@ Fixpoint all_some {A} (l : list (option A)) : option (list A) :=
 
 Definition onat_eq_dec : forall a b : option nat, {a = b} + {a <> b}.
 Proof. decide equality. apply PeanoNat.Nat.eq_dec. Defined.
-Definition after_eq_dec : forall a b : list (string * string), {a = b} + {a <> b}.
-Proof. apply list_eq_dec. decide equality; apply string_dec. Defined.
+Definition strings_eq_dec : forall a b : list string, {a = b} + {a <> b} := list_eq_dec string_dec.
 
-Definition check_lookup (hash : bytes -> bytes) (wrapped_pool : list (option emsg)) (lk : lookup) : bool :=
-  match all_some (map (fun i => nth i wrapped_pool None) (lk_env lk)) with
+(** what one call must have left behind, given the result of the model's scan *)
+Definition request_ok (ev : cosmos_env) (rq : request) (r : list emsg * option (nat * emsg)) : bool :=
+  eqb onat_eq_dec (option_map fst (snd r)) (rq_found rq) &&
+  eqb strings_eq_dec (map m_hash (fst r)) (rq_after rq) &&
+  eqb strings_eq_dec (map m_from (fst r)) (ev_from_after ev).
+
+Definition check_envelope (hash : bytes -> bytes) (wrapped_pool : list (option emsg)) (ev : cosmos_env) : bool :=
+  match all_some (map (fun i => nth i wrapped_pool None) (ev_members ev)) with
   | None => false
   | Some msgs0 =>
-      let msgs := forge_froms (lk_forge_from lk) (forge_hashes (lk_forge_hash lk) msgs0) in
-      let '(after, res) := unwrap_scan hash 0 msgs (lk_req lk) in
-      eqb onat_eq_dec (option_map fst res) (lk_found lk) &&
-      eqb after_eq_dec (map (fun m => (m_hash m, m_from m)) after) (lk_after lk)
+      let msgs := forge_froms (ev_forge_from ev) (forge_hashes (ev_forge_hash ev) msgs0) in
+      forallb (fun rq => request_ok ev rq (unwrap_scan hash 0 msgs (rq_hash rq))) (ev_requests ev)
   end.
 
 Definition check_unwrap_case (c : unwrap_case) : bool :=
   let hash := table_hash (uc_table c) in
   let wrapped_pool := map (from_eth_tx hash no_csum) (uc_pool c) in
-  forallb (check_lookup hash wrapped_pool) (uc_lookups c).
+  forallb (check_envelope hash wrapped_pool) (uc_envs c).
 
 (** The same check, evaluated faster: the Ethereum hash of a pool member is
     computed once per case instead of once per visit, and carried along with the
@@ -622,20 +629,18 @@ Definition forge_hashes_memo (fs : list (nat * string)) (msgs : list (emsg * opt
 Definition forge_froms_memo (fs : list (nat * string)) (msgs : list (emsg * option bytes)) :=
   fold_left (fun ms f => update_nth (fun p => (mk_emsg (m_data (fst p)) (m_hash (fst p)) (snd f), snd p)) (fst f) ms) fs msgs.
 
-Definition check_lookup_memo (pool : list (option (emsg * option bytes))) (lk : lookup) : bool :=
-  match all_some (map (fun i => nth i pool None) (lk_env lk)) with
+Definition check_envelope_memo (pool : list (option (emsg * option bytes))) (ev : cosmos_env) : bool :=
+  match all_some (map (fun i => nth i pool None) (ev_members ev)) with
   | None => false
   | Some msgs0 =>
-      let msgs := forge_froms_memo (lk_forge_from lk) (forge_hashes_memo (lk_forge_hash lk) msgs0) in
-      let '(after, res) := scan_memo 0 msgs (lk_req lk) in
-      eqb onat_eq_dec (option_map fst res) (lk_found lk) &&
-      eqb after_eq_dec (map (fun m => (m_hash m, m_from m)) after) (lk_after lk)
+      let msgs := forge_froms_memo (ev_forge_from ev) (forge_hashes_memo (ev_forge_hash ev) msgs0) in
+      forallb (fun rq => request_ok ev rq (scan_memo 0 msgs (rq_hash rq))) (ev_requests ev)
   end.
 
 Definition check_unwrap_case_memo (c : unwrap_case) : bool :=
   let hash := table_hash (uc_table c) in
   let pool := map (fun tx => option_map (annot hash) (from_eth_tx hash no_csum tx)) (uc_pool c) in
-  forallb (check_lookup_memo pool) (uc_lookups c).
+  forallb (check_envelope_memo pool) (uc_envs c).
 
 Fixpoint mismatches_unwrap_from (i : nat) (cs : list unwrap_case) : list nat :=
   match cs with
@@ -644,7 +649,9 @@ Fixpoint mismatches_unwrap_from (i : nat) (cs : list unwrap_case) : list nat :=
   end.
 Definition mismatches_unwrap (cs : list unwrap_case) : list nat := mismatches_unwrap_from 0 cs.
 
-(** [flip h k]: the hash [h] with bit [k] flipped (bit [k mod 8] of byte [k / 8]);
-    shorthand of the generated case files *)
+(** shorthands of the generated case files.  [flip h k]: the hash [h] with bit
+    [k] flipped (bit [k mod 8] of byte [k / 8]); [rq]: a request that left the
+    recorded hashes [after] *)
+Definition zero_hash : bytes := repeat 0%N 32.
 Definition flip (h : bytes) (k : nat) : bytes :=
   update_nth (fun b => N.lxor b (N.shiftl 1 (N.of_nat (Nat.modulo k 8)))) (Nat.div k 8) h.
